@@ -8,4 +8,6 @@ CONSTANTS
   InitBank = "3"
   MaxLen = 8
   Defects = {}
+  Foreign = {}
+  BankAmts = {}
 CHECK_DEADLOCK FALSE
